@@ -261,11 +261,19 @@ func TestC10(t *testing.T) {
 		}
 		tnCounter := 0
 		newTN := func() string { tnCounter++; return fmt.Sprintf("tn%d", tnCounter) }
+		// tracking numbers are free-form strings chosen by the signer and readable from chain state: now and then a new
+		// entry reuses the tracking number of an existing one (access ids derive from it)
+		drawTN := func(rt *rapid.T) string {
+			if es := entries(); len(es) > 0 && rapid.IntRange(0, 3).Draw(rt, "reuseTrackingNumber") == 0 {
+				return es[rapid.IntRange(0, len(es)-1).Draw(rt, "whoseTrackingNumber")].Tracking
+			}
+			return newTN()
+		}
 
 		rt.Repeat(map[string]func(*rapid.T){
 			"provision": func(rt *rapid.T) {
 				a := drawAcc(rt, "signer")
-				tn := newTN()
+				tn := drawTN(rt)
 				ed, vw := genACL(rt, "e", tn, a), genACL(rt, "v", tn, a)
 				root := fttypes.MerklePath("s")
 				acct := hexsha(a.Bech)
@@ -283,7 +291,7 @@ func TestC10(t *testing.T) {
 				hp := craft(rt, "hashParent", parent.Address)
 				acct := craft(rt, "account", parent.Account)
 				child := rapid.SampledFrom([]string{hexsha("a"), hexsha("b"), hexsha("home"), "x", "a/b", hexsha("a") + "/"}).Draw(rt, "hashChild")
-				tn := newTN()
+				tn := drawTN(rt)
 				ed, vw := genACL(rt, "e", tn, signer), genACL(rt, "v", tn, signer)
 				contents := rapid.SampledFrom([]string{"c1", "c2", "{}"}).Draw(rt, "contents")
 				msg := fttypes.NewMsgPostFile(signer.Bech, acct, hp, child, contents, vw, ed, tn)
